@@ -204,6 +204,22 @@ func editNoOf(root string) int {
 	return n
 }
 
+// c29ErrClass renders an API error for the observation log. When the session
+// stops synchronizing while a flush is being submitted, controller.flush picks
+// among several ready select cases, so the same failure is worded "before flush
+// request could be sent" or "while waiting for flush response" at the whim of
+// Go's select; the two wordings are folded into one observation.
+func c29ErrClass(err error) string {
+	if err == nil {
+		return ""
+	}
+	msg := err.Error()
+	for _, tail := range []string{" before flush request could be sent", " while waiting for flush response"} {
+		msg = strings.ReplaceAll(msg, tail, " (around the flush request)")
+	}
+	return "err=" + msg
+}
+
 type c29Item struct {
 	seq  int
 	kind string // "j" journal entry | "call" | "ret"
@@ -220,7 +236,7 @@ func isWork(op string) bool {
 func (s *c29Sess) check() {
 	w := s.w
 	for _, c := range w.collect() {
-		s.obs("%s returned %s", c.Name, errString(c.Err))
+		s.obs("%s returned %s", c.Name, c29ErrClass(c.Err))
 	}
 	w.mu.Lock()
 	var items []c29Item
@@ -660,7 +676,7 @@ func TestC29(t *testing.T) {
 	r.Assume("real Manager/controller and real local endpoints (force-poll 1 s, two-way-safe) behind a journalling wrapper; alpha holds one file that 'edit' rewrites",
 		"a session counts as paused from the return of Pause (or of a paused Create) until the next Resume call; a Resume already outstanding when Pause returns may take effect afterwards",
 		"'complete cycle that started after the request' is read as: both endpoints began a scan between request and return, no staging/transition of that cycle follows the return, and alpha's content at request time is on beta",
-		"granularity: harness events at quiescence only; interleavings inside one quiescence step are not owned (divergent_replays counts observed differences)")
+		"granularity: harness events at quiescence only; interleavings inside one quiescence step are not owned (divergent_replays counts observed differences; the two wordings controller.flush's select can give the same failure are folded into one observation)")
 	dir := scratchDir(t)
 	deadline := vr.Deadline(50*time.Second, 9*time.Minute).Unix()
 	n := vr.Workers()
